@@ -134,6 +134,31 @@ CHECKS = {
              "stages are reached, and run through the ten real entry points; an exception that is neither JoseError nor ValueError is a violation "
              "identified by (type, innermost joserfc function). Byte/JSON mutation fuzzing of valid tokens adds 24k (quick) to 320k (thorough) inputs.",
         note="Trusted: TLC, refimpl. Inputs beyond the modelled slots are sampled by fuzzing only; interpreter resource limits other than JSON nesting are not decided."),
+    "C11": dict(
+        cat="model_checking", ref="DESIGN.md section 6 (C11)",
+        technique="TLA+ Jwk spec (lineages of export/import steps) and JwkImport refusal table over JoseDefs, model-checked by TLC; chains replayed on pool keys (incl. leading-zero EC keys) with refimpl-computed RFC-conformant encodings as oracle",
+        text="Jwk.tla models a key as (material, private?, origin, kid, optional members) and export/import in JWK/PEM/DER with private=True/False/None and "
+             "passwords as transitions; TLC checks NoPrivateGain, PrivateKept, KidStable, PublicClean, PrivateOnPublicIsError over ~355k three-step chains and "
+             "refutes five deviations. Sampled chains are replayed on real keys: after each step the object is projected back (private flag, public and private "
+             "numbers, kid) and its JWK view must equal the RFC 7518/8037 encoding refimpl computes from the numbers (fixed-length EC coordinates, minimal RSA "
+             "integers); first and last object must interoperate. JwkImport.tla's 803-case table of malformed JWKs is imported case by case.",
+        note="Trusted: TLC, refimpl (layouts validated against Wire.tla), pyca/cryptography key loading. Chains are a seeded sample per run."),
+    "C12": dict(
+        cat="model_checking", ref="DESIGN.md section 6 (C12)",
+        technique="information-flow labels in Jwk.tla (PublicClean, PrivateOnPublicIsError) model-checked by TLC; every public output along replayed chains and every produced JWS/JWE serialization scanned for the key's private parameters",
+        text="Each output in Jwk.tla carries whether it depends on private atoms; TLC checks that public JWKs, public key-set exports, public PEM/DER, thumbprints "
+             "and kids never do and that a private export of a public-only key is an error. On the real code each such output is scanned for every private "
+             "parameter of the key as member name and as octets in raw, hex, decimal, base64 and base64url form at three alignments; tokens of all 15 JWS and 21 "
+             "JWE algorithms (compact and JSON, epk included) are scanned as well.",
+        note="Trusted: the scanner's encodings; parameters shorter than 8 octets are not searched. Timing/error-message leakage not decided."),
+    "C13": dict(
+        cat="model_checking", ref="DESIGN.md section 6 (C13)",
+        technique="ThumbprintInput of Wire.tla evaluated by TLC and matched by refimpl; kid rules of Jwk.tla model-checked; thumbprint and kid compared with refimpl after every step of replayed chains and across representations",
+        text="The RFC 7638 hash input is a TLA+ operator that TLC evaluates on seeded JWKs and refimpl must reproduce; Jwk.tla's KidStable fixes 'absent => "
+             "thumbprint, present => never overwritten, kid travels with the JWK form'. On the real code the thumbprint and kid are compared with refimpl's value "
+             "(computed from the key's numbers) after each step of every replayed chain, and per key kind across private/public JWK, shuffled members with "
+             "optional members, PEM and DER origins, repeated ensure_kid/as_dict calls and the sha384/sha512 digests.",
+        note="Trusted: TLC, hashlib, refimpl. The RFC 7638 3.1 example key is not available offline."),
 }
 
 NOT_YET = {}
